@@ -1,4 +1,4 @@
-use std::collections::HashMap;
+use std::collections::BTreeMap;
 use std::error::Error;
 use std::fmt;
 use std::num::{ParseFloatError, ParseIntError};
@@ -28,7 +28,8 @@ pub enum SvgdxError {
     MissingBoundingBox(String),
     MessageError(String),
     InternalLogicError(String),
-    MultiError(HashMap<OrderIndex, (SvgElement, SvgdxError)>),
+    // ordered map: the Debug form (printed by the CLI) lists errors in document order
+    MultiError(BTreeMap<OrderIndex, (SvgElement, SvgdxError)>),
     OtherError(Box<dyn std::error::Error>),
 }
 
